@@ -8,7 +8,7 @@ from .architecture import instruction_opcodes
 from .metacommand_impl import get_as_int
 from .containers import CaseInsensitiveDict
 from .deferred import BaseDeferred, Deferred, SizedDeferred, wait
-from .types import Symbol, ParenthesizedExpression, Number, InstructionPointer, Label
+from .types import Symbol, ParenthesizedExpression, Number, InstructionPointer, Label, CodeBlock
 from . import operators
 from . import reports
 
@@ -400,6 +400,13 @@ class Instruction:
         operands_encoding = b""
 
         for stub, operand_expr in zip(self.operands, insn.operands):
+            if isinstance(operand_expr, CodeBlock):
+                reports.error(
+                    "invalid-addressing",
+                    (insn.ctx_start, insn.ctx_end, f"Instruction '{insn.name.name}' takes registers, addresses and numbers as operands"),
+                    (operand_expr.ctx_start, operand_expr.ctx_end, "...but this is a block of code")
+                )
+                return None
             opcode_inline_value, operand_encoding = stub.encode(operand_expr, {**state, "rel_address": state["emit_address"] + 2 + len(operands_encoding)})
             replacements.append((stub, opcode_inline_value))
             operands_encoding += operand_encoding
